@@ -8,6 +8,8 @@ CONSTANTS
   AcceptTopBit = FALSE
   LimitPerFrame = FALSE
   PongEmpty = TRUE
-INVARIANTS TypeOk LimitOk ProtocolClose PongOk NoTopBitFrame Whole
+  BufSizes = {0}
+  CtlNeedsBuffer = FALSE
+INVARIANTS TypeOk LimitOk ProtocolClose PongOk NoTopBitFrame Whole NoSpontaneousFailure
 PROPERTIES Sticky CutDeliversNothing
 CHECK_DEADLOCK FALSE
